@@ -261,6 +261,34 @@ class Gen:
         for d in L.data:
             self.w("%so.kv(%s, sbepp::size_bytes(%s.%s()));" % (pad, cstr("d:" + d.name), v, d.name))
 
+    # ------------------------------------------------------ trait sizes
+    def preorder_groups(self, L):
+        res = []
+
+        def walk(x):
+            for g in x.groups:
+                res.append(g)
+                walk(g)
+        walk(L)
+        return res
+
+    def has_data_anywhere(self, L):
+        return bool(L.data) or any(self.has_data_anywhere(g) for g in L.groups)
+
+    def trait_size_call(self, L, kind):
+        """statements computing std::size_t r = <kind>_traits<tag>::size_bytes(...) with arguments read from tk in order
+        (counts in pre-order, then total data)"""
+        types = []
+        if kind == "group":
+            types.append(CPP_PRIM[self.m.member(L.dimension, "numInGroup").prim])
+        for g in self.preorder_groups(L):
+            types.append(CPP_PRIM[self.m.member(g.dimension, "numInGroup").prim])
+        if self.has_data_anywhere(L):
+            types.append("std::size_t")
+        decl = " ".join("%s a%d_ = static_cast<%s>(tk.dec());" % (t, i, t) for i, t in enumerate(types))
+        return "%s std::size_t r = sbepp::%s_traits<%s>::size_bytes(%s);" % (
+            decl, kind, self.level_tag(L), ", ".join("a%d_" % i for i in range(len(types))))
+
     # --------------------------------------------------------------- main
     def generate(self):
         m = self.m
@@ -291,6 +319,7 @@ class Gen:
                 self.dump_level(L, "v0", 1, mode)
                 if mode == "cur":
                     w("    o.kv(\"cursor_end\", reinterpret_cast<const unsigned char*>(c.pointer()) - p);")
+                    w("    o.kv(\"cursor_size\", sbepp::size_bytes(v0, c));")
                 w("}")
             w("static void dump_vis_%d(unsigned char* p, std::size_t n, rt::Out& o) {" % i)
             w("    auto v0 = sbepp::make_const_view<%s>(p, n);" % view)
@@ -304,7 +333,16 @@ class Gen:
             w("    o.kv(\"size_bytes\", sbepp::size_bytes(v0));")
             w("    o.kv(\"header\", sbepp::size_bytes(sbepp::get_header(v0)));")
             w("    { auto r = sbepp::size_bytes_checked(v0, n); o.kv(\"checked_valid\", r.valid ? 1 : 0); o.kv(\"checked_size\", r.size); }")
+            w("    { rt::Out tmp; dump_cur_%d(p, n, tmp); std::size_t k = tmp.s.rfind(\"cursor_size=\"); o.tok(k == std::string::npos ? std::string(\"cursor_size=?\") : tmp.s.substr(k)); }" % i)
             self.sizes_level(L, "v0", 1)
+            w("}")
+            # ---- trait-level sizes
+            w("static void tsize_%d(std::size_t which, rt::Tokens& tk, rt::Out& o) {" % i)
+            w("    switch(which) {")
+            w("    case 0: { %s o.kv(\"trait\", r); break; }" % self.trait_size_call(L, "message"))
+            for gi, g in enumerate(self.preorder_groups(L)):
+                w("    case %d: { %s o.kv(\"trait\", r); break; }" % (gi + 1, self.trait_size_call(g, "group")))
+            w("    default: o.err(\"bad trait index\"); }")
             w("}")
             # ---- encode
             w("static void encode_%d(unsigned char* p, std::size_t n, rt::Tokens& tk, rt::Out& o) {" % i)
@@ -334,6 +372,11 @@ class Gen:
             w("        case %d: encode_%d(p, img.size(), tk, o); break;" % (i, i))
         w("        default: return false; }")
         w("        o.tok(\"BUF \" + rt::Out::hexbytes(p, img.size())); return true; }")
+        w("    if(cmd == \"tsize\") { std::size_t which = static_cast<std::size_t>(tk.dec());")
+        w("        switch(mi) {")
+        for i in range(len(m.messages)):
+            w("        case %d: tsize_%d(which, tk, o); return true;" % (i, i))
+        w("        default: return false; } }")
         w("    return false;")
         w("}")
         w("} // namespace drv")
